@@ -24,10 +24,33 @@ package data
 // Bounded work: every iteration of a decoder loop consumes at least one byte.
 //@ func data.consumeUnixFSData
 //@ loop 0 decreases len(remaining)
+// C09 (decode side): each wire number of the UnixFS Data schema is decoded into its logical field
+// with the value read from the wire; a mode is rejected exactly when it does not fit 32 bits.
+//@ at call github.com/ipld/go-ipld-prime/fluent/qp.MapEntry#1 assert wire-number-1-is-DataType: fieldNum == 1 && callee_k == "DataType"
+//@ at call github.com/ipld/go-ipld-prime/fluent/qp.MapEntry#2 assert wire-number-2-is-Data: fieldNum == 2 && callee_k == "Data"
+//@ at call github.com/ipld/go-ipld-prime/fluent/qp.MapEntry#3 assert wire-number-3-is-FileSize: fieldNum == 3 && callee_k == "FileSize"
+//@ at call github.com/ipld/go-ipld-prime/fluent/qp.MapEntry#4 assert wire-number-4-is-BlockSizes: fieldNum == 4 && callee_k == "BlockSizes"
+//@ at call github.com/ipld/go-ipld-prime/fluent/qp.MapEntry#5 assert wire-number-5-is-HashType: fieldNum == 5 && callee_k == "HashType"
+//@ at call github.com/ipld/go-ipld-prime/fluent/qp.MapEntry#6 assert wire-number-6-is-Fanout: fieldNum == 6 && callee_k == "Fanout"
+//@ at call github.com/ipld/go-ipld-prime/fluent/qp.MapEntry#7 assert wire-number-7-is-Mode: fieldNum == 7 && callee_k == "Mode"
+//@ at call github.com/ipld/go-ipld-prime/fluent/qp.MapEntry#8 assert wire-number-8-is-Mtime: fieldNum == 8 && callee_k == "Mtime"
+//@ at call github.com/ipld/go-ipld-prime/fluent/qp.Int#1 assert dataType-is-the-varint-read: callee_i == int64(dataType)
+//@ at call github.com/ipld/go-ipld-prime/fluent/qp.Int#2 assert fileSize-is-the-varint-read: callee_i == int64(fileSize)
+//@ at call github.com/ipld/go-ipld-prime/fluent/qp.Int#3 assert blockSize-is-the-varint-read: callee_i == int64(blockSize)
+//@ at call github.com/ipld/go-ipld-prime/fluent/qp.Int#4 assert hashType-is-the-varint-read: callee_i == int64(hashType)
+//@ at call github.com/ipld/go-ipld-prime/fluent/qp.Int#5 assert fanout-is-the-varint-read: callee_i == int64(fanout)
+//@ at call github.com/ipld/go-ipld-prime/fluent/qp.Int#6 assert mode-is-the-varint-read: callee_i == int64(mode)
+//@ at call github.com/ipld/go-ipld-prime/fluent/qp.Int#6 assert accepted-mode-fits-32-bits: mode <= 4294967295
+//@ at call errors.New#3 assert only-a-mode-beyond-32-bits-is-rejected: mode > 4294967295
 //@ func data.consumeUnixTime
 //@ loop 0 decreases len(remaining)
+//@ at call github.com/ipld/go-ipld-prime/fluent/qp.MapEntry#1 assert wire-number-1-is-Seconds: fieldNum == 1 && callee_k == "Seconds"
+//@ at call github.com/ipld/go-ipld-prime/fluent/qp.MapEntry#2 assert wire-number-2-is-FractionalNanoseconds: fieldNum == 2 && callee_k == "FractionalNanoseconds"
+//@ at call github.com/ipld/go-ipld-prime/fluent/qp.Int#1 assert seconds-is-the-varint-read: callee_i == int64(seconds)
+//@ at call github.com/ipld/go-ipld-prime/fluent/qp.Int#2 assert nanoseconds-is-the-fixed32-read: callee_i == int64(fractionalNanoseconds) && 0 <= callee_i && callee_i <= 4294967295
 //@ func data.consumeUnixFSMetadata
 //@ loop 0 decreases len(remaining)
+//@ at call github.com/ipld/go-ipld-prime/fluent/qp.MapEntry#1 assert wire-number-1-is-MimeType: fieldNum == 1 && callee_k == "MimeType"
 //@ func data.consumeBlockSizes
 //@ loop 0 invariant 0 <= i
 //@ loop 0 decreases int(count) - i
